@@ -258,6 +258,15 @@ def run(prog, check):
             check.ob('C08.R2', key, False, where,
                      'the loop over %s stops at the first sector satisfying the test: with two candidates the one declared first is chosen' % lk,
                      'two candidate sectors declared in either order')
+    from ._common import truncating_breaks
+    for ci, m, it in units:
+        for lk_, g_, where_ in truncating_breaks(it):
+            key = '%s::%s::loop-cut-short(%s)' % (where_.split(':')[0], ci.name, lk_)
+            n2 += 1
+            check.ob('C08.R2', key, False, where_,
+                     'the loop over %s is left at the first element for which %s: which sectors are processed depends on where that element '
+                     'was declared' % (lk_, ' and '.join(repr(x) for x in g_ if mentions_elem(x.key(), lk_)) or 'the test holds'),
+                     'the same sectors declared before / after that object')
     # searches that enforce uniqueness are C11.R4; list the loops examined
     n_loops = 0
     for ci, m, it in units:
